@@ -429,3 +429,121 @@ func PathVersions(fn *ssa.Function) func(at ssa.Value, path string) string {
 		return ""
 	}
 }
+
+// renameAtoms returns a copy of c with atom names mapped through m (unmapped names are
+// prefixed so that they cannot collide with the caller's atoms).
+func renameAtoms(c Constraint, m map[string]string, prefix string) Constraint {
+	n := Lin{C: new(big.Rat).Set(c.L.C), Coef: map[string]*big.Rat{}}
+	for k, v := range c.L.Coef {
+		nk, ok := m[k]
+		if !ok {
+			nk = prefix + k
+		}
+		if n.Coef[nk] == nil {
+			n.Coef[nk] = new(big.Rat)
+		}
+		n.Coef[nk].Add(n.Coef[nk], v)
+	}
+	return Constraint{n}
+}
+
+// FactSets returns the alternative fact sets that hold at block `at` of f: the branch
+// conditions dominating it, extended - for every call `err := g(args…)` of a gluon function
+// whose nil-error edge dominates `at` - with the conditions that dominate each nil-error
+// return of g (parameters renamed to the caller's arguments).  A goal holds at `at` if it is
+// entailed by every returned set.
+func FactSets(f *ssa.Function, at *ssa.BasicBlock, isOwn func(*ssa.Function) bool) [][]Constraint {
+	env := &LinEnv{Fn: f}
+	sets := [][]Constraint{env.FactsAt(at)}
+	for _, d := range f.Blocks {
+		iff := IfOf(d)
+		if iff == nil {
+			continue
+		}
+		cmp, ok := iff.Cond.(*ssa.BinOp)
+		if !ok || (cmp.Op != token.EQL && cmp.Op != token.NEQ) {
+			continue
+		}
+		var errV ssa.Value
+		switch {
+		case IsNilConst(cmp.Y):
+			errV = cmp.X
+		case IsNilConst(cmp.X):
+			errV = cmp.Y
+		default:
+			continue
+		}
+		nilEdge := 1
+		if cmp.Op == token.EQL {
+			nilEdge = 0
+		}
+		if !EdgeDominates(d, nilEdge, at) {
+			continue
+		}
+		var call *ssa.Call
+		switch t := errV.(type) {
+		case *ssa.Call:
+			call = t
+		case *ssa.Extract:
+			call, _ = t.Tuple.(*ssa.Call)
+		}
+		if call == nil {
+			continue
+		}
+		g := call.Call.StaticCallee()
+		if g == nil || len(g.Blocks) == 0 || !isOwn(g) {
+			continue
+		}
+		// parameter name -> caller atom
+		genv := &LinEnv{Fn: g}
+		m := map[string]string{}
+		for i, p := range g.Params {
+			if i < len(call.Call.Args) {
+				m[genv.AtomName(p)] = env.AtomName(call.Call.Args[i])
+			}
+		}
+		var alts [][]Constraint
+		for _, r := range Returns(g) {
+			lr := LastResult(r)
+			if lr == nil || !IsNilConst(lr) {
+				continue
+			}
+			var fs []Constraint
+			for _, c := range genv.FactsAt(r.Block()) {
+				fs = append(fs, renameAtoms(c, m, g.Name()+"·"))
+			}
+			alts = append(alts, fs)
+		}
+		if len(alts) == 0 {
+			continue
+		}
+		var next [][]Constraint
+		for _, s := range sets {
+			for _, a := range alts {
+				next = append(next, append(append([]Constraint{}, s...), a...))
+			}
+		}
+		if len(next) <= 64 {
+			sets = next
+		}
+	}
+	return sets
+}
+
+// EntailedAt: v <= hi (useHi) / v >= lo (useLo) holds in every fact set at `at`.
+func EntailedAt(f *ssa.Function, at *ssa.BasicBlock, v ssa.Value, bound int64, upper bool, isOwn func(*ssa.Function) bool) bool {
+	env := &LinEnv{Fn: f}
+	lv := env.Lin(v)
+	for _, facts := range FactSets(f, at, isOwn) {
+		ok := false
+		if upper {
+			ok = Entails(facts, lv, NewLin(bound))
+		} else {
+			ok = Entails(facts, NewLin(bound), lv)
+		}
+		if !ok {
+			return false
+		}
+	}
+	return true
+}
